@@ -33,7 +33,7 @@ DET_PROPS = {"C06": ("exploration", "Output bytes identical across schedules/kno
 BUDGETS_ERR = {"quick": (48, 10), "thorough": (480, 40)}
 
 BUDGETS = {
-    "det": {"quick": (72, 8), "thorough": (540, 30)},
+    "det": {"quick": (72, 10), "thorough": (540, 30)},
     "graph": {"quick": (64, 12), "thorough": (640, 40)},
     "str": {"quick": (48, 10), "thorough": (480, 30)},
 }
@@ -178,17 +178,24 @@ FS_BUDGET = {
 }
 FS_LEVEL = {"C17": "fault_enumeration", "C18": "fault_enumeration", "C19": "exploration"}
 FS_RULE = {
-    "C17": ("per workload (a successful small link) the full grid {17 phase boundaries (+2 in fork "
+    "C17": ("PLUS per workload 2 (quick) / 6 (thorough) configurations are profiled through the system-call "
+            "fault seam (sim/simsys LD_PRELOAD interposer) and the n-th call of each kind on the link's "
+            "files (open, statx, mmap, ftruncate, write, rename, unlink, fchmod, close, fork, pipe) is "
+            "made to fail with a realistic errno or a short write; a fault that fired before the worker "
+            "reported success, or any printed error, must give a non-zero status. "
+            "Per workload (a successful small link) the full grid {17 phase boundaries (+2 in fork "
             "mode)} x {panic, abort, allocation failure, SIGSEGV, SIGKILL} plus {8 error-return sites} x "
             "{err} is enumerated, plus step-placed crash faults at random scheduler steps, in fork and "
             "--no-fork mode, threads 1/2/4, prior output absent/good/unrelated; oracle: exit status 0 => "
             "output byte-identical to the fault-free output and executable. "),
-    "C18": ("failing links (write-time relocation overflow, failing ASSERT, undefined symbol) and "
+    "C18": ("failing links (write-time relocation overflow, failing ASSERT, undefined symbol), links "
+            "with an enumerated failing system call (open/mmap/write/... through sim/simsys) and "
             "successful links with an injected error return at one of 8 sites x prior output state "
             "(absent, previous good output, unrelated content, busy executable) x write modes x threads "
             "x fork x schedule; oracle: exit status != 0 => output path absent or identical (inode, "
             "content, mtime) to before. "),
-    "C19": ("successful and failing links x output names (prog, libfoo.so, a.b.c, noext, .hidden, "
+    "C19": ("successful and failing links (and, through the system-call fault seam, links on which the "
+            "n-th open/mmap/write/rename/unlink/... fails) x output names (prog, libfoo.so, a.b.c, noext, .hidden, "
             "prog.exe) x pre-existing siblings (<stem>.delete, <out>.delete, <out>.layout, <stem>.d, "
             "...) x requested side files (dependency file, layout) x prior output state x write modes x "
             "threads x fork x schedule; oracle: directory snapshot (type, mode, size, inode, mtime, "
@@ -209,6 +216,22 @@ def run_fs_family(prop, tier, seed):
     jobs = [{"prop": prop, "seed": seed, "index": i, "tier": tier, "schedules": nsched}
             for i in range(nwl)]
     violations = _collect(prop, ev, pool_imap(family_fs.run_job, jobs))
+    if prop == "C19":
+        # Concurrent links in one directory (family_conc): interleaving decided by the plan.
+        from . import family_conc
+        n, ns = {"quick": (12, 6), "thorough": (120, 20)}[tier]
+        cjobs = [{"prop": prop, "seed": seed, "index": i, "tier": tier, "schedules": ns}
+                 for i in range(n)]
+        saved = ev.distinct
+        ev.distinct = set()
+        violations += _collect(prop, ev, pool_imap(family_conc.run_job, cjobs))
+        ev.distinct = saved | {f"conc:{d}" for d in ev.distinct}
+        ev.rule += (" PLUS family_conc: two simulated links A and B in one directory (outputs sharing a "
+                    "stem/prefix, or the same output with the same inputs; prior outputs and look-alike "
+                    "siblings present); B runs from a `cmd` fault of A at a chosen site/step, either to "
+                    "completion or up to a point of its own where it parks until a later point of A "
+                    "releases it; both must exit 0, each output must equal that of the same link run "
+                    "alone, and nothing else in the directory may change.")
     if prop == "C17":
         ev.extra["exhaustive_grid"] = True
         ev.extra["faults"] = {k: v for k, v in ev.counters.items() if k.startswith("fault_")}
@@ -304,7 +327,8 @@ REQUIRED_PROBES = {
     "C17": ["fault_fired_fsize", "fault_fired_panic", "fault_fired_abort", "fault_fired_alloc", "fault_fired_segv",
             "fault_fired_kill", "fault_fired_err", "fork", "nofork"],
     "C18": ["probe_error_exit_before_creator_ran", "fault_fired_err", "prior_busy"],
-    "C19": ["prior_busy", "probe_busy_output_relinked"],
+    "C19": ["prior_busy", "probe_busy_output_relinked", "pairs_interleaved", "same_output_pairs",
+            "mode_split", "mode_atomic"],
     "C03": ["probe_take_lost", "big_object_classes", "activations"],
     "C40": ["probe_reserve_cas_lost", "probe_reserve_low", "probe_bucket_parked",
             "probe_put_resumes_parked_bucket", "probe_multi_group_sections"],
@@ -377,7 +401,7 @@ def run(prop, tier, seed):
 
 FAMILY_MODULES = {"graph": "family_graph", "str": "family_str", "arch": "family_arch",
                    "det": "family_det", "err": "family_err", "fs": "family_fs", "mut": "family_mut",
-                   "js": "family_js", "relink": "family_relink", "real": "family_real"}
+                   "js": "family_js", "relink": "family_relink", "real": "family_real", "conc": "family_conc"}
 MINIMISABLE = ("graph", "str", "arch")
 
 
